@@ -224,7 +224,7 @@ pub fn gen_quake(c: &mut Chooser, ver: Ver, player_counts: &[usize], names_with_
     let n_extra = pick(c, &[2usize, 0, 5]);
     for i in 0 .. n_extra {
         vars.push((
-            pick(c, &[format!("g_var{i}"), format!("sv key {i}"), format!("*gamedir{i}")]),
+            pick(c, &[format!("g_var{i}"), format!("sv key {i}"), format!("*gamedir{i}"), format!("sv_maxRate{i}"), format!("Q2Admin{i}")]),
             qstr(c, "1"),
         ));
     }
